@@ -24,11 +24,13 @@ VARIABLES sim,       \* configuration constants of the run (SimInit line)
           leavers,   \* nodes that called Leave
           downs,     \* nodes currently crashed
           stop,      \* [t, views, live] at the StopFaults line, or [t |-> -1]
+          departed,  \* nodes that left gracefully and then shut down
+          heard,     \* set of <<o, x>>: o's record of x is alive or suspect (o lists x)
           pass       \* node -> probe pass bookkeeping [picks: name -> count, stable, elig (eligible peers at the
                      \*         last wrap), full (the pass began with a wrap), missed: name -> passes without a probe]
 
 cbase == <<sim, crashT, watch, since, gone, leavers, downs, stop>>
-cvars == <<cbase, pass>>
+cvars == <<cbase, pass, departed, heard>>
 
 NoSim == [nodes |-> 0, probeInterval |-> 0, probeTimeout |-> 0, awMax |-> 0, suspMult |-> 0, maxMult |-> 0,
           pushPull |-> 0, gossipDead |-> 0, tcpTimeout |-> 0, maxDelay |-> 0, healthy |-> FALSE, settle |-> 0]
@@ -102,17 +104,22 @@ PassUpdate(e) ==
     [] OTHER -> UNCHANGED pass
 
 \* C04: predicates of a healthy run
+\* A member that left gracefully and shut down is no longer a responsive member: an observer that has
+\* not yet recorded its departure may rightly suspect it, and is excused until it has.
+Excused(o) == \E x \in departed : <<o, x>> \in heard
 C04Judge(e) ==
   (sim.healthy /\ 2 * sim.maxDelay < sim.probeTimeout) =>
     /\ CReport("C04_NoSuspect", e,
-               ~(e.ev = "NodeOp" /\ e.op = "suspect" /\ e.post.state = "suspect" /\ e.pre.state # "suspect"))
+               ~(e.ev = "NodeOp" /\ e.op = "suspect" /\ e.post.state = "suspect" /\ e.pre.state # "suspect"
+                 /\ e.claim.node \notin departed))
     /\ CReport("C04_NoDeath", e,
-               ~(e.ev = "NodeOp" /\ e.op = "dead" /\ e.claim.from # e.claim.node /\ e.post # e.pre))
+               ~(e.ev = "NodeOp" /\ e.op = "dead" /\ e.claim.from # e.claim.node /\ e.post # e.pre
+                 /\ e.claim.node \notin departed))
     /\ CReport("C04_NoRefute", e, ~(e.ev = "NodeOp" /\ e.incPost > e.incPre /\ ~e.boot /\ e.health > 0))
     /\ CReport("C04_NoLeaveEvent", e,
                ~(e.ev \in {"NodeOp", "Reap"} /\ \E i \in DOMAIN e.events :
                     e.events[i].kind = "leave" /\ e.events[i].name \notin leavers))
-    /\ CReport("C04_Healthy", e, ~(e.ev = "Health" /\ e.incPost > 0))
+    /\ CReport("C04_Healthy", e, ~(e.ev = "Health" /\ e.incPost > 0 /\ ~Excused(e.n)))
 
 \* C03 / C05 at the end of the run
 EndJudge(e) ==
@@ -186,7 +193,14 @@ CUpdate(e) ==
          ELSE UNCHANGED cbase
     [] OTHER -> UNCHANGED cbase
 
-CInit == TInit /\ sim = NoSim /\ crashT = << >> /\ watch = {} /\ since = << >> /\ gone = << >>
+HeardUpdate(e) ==
+  CASE e.ev = "SimInit" -> departed' = {} /\ heard' = {}
+    [] e.ev = "Depart" -> departed' = departed \cup {e.node} /\ UNCHANGED heard
+    [] e.ev = "NodeOp" /\ Listed(e.post) -> heard' = heard \cup {<<e.n, e.claim.node>>} /\ UNCHANGED departed
+    [] e.ev = "NodeOp" /\ ~Listed(e.post) -> heard' = heard \ {<<e.n, e.claim.node>>} /\ UNCHANGED departed
+    [] OTHER -> UNCHANGED <<departed, heard>>
+
+CInit == TInit /\ departed = {} /\ heard = {} /\ sim = NoSim /\ crashT = << >> /\ watch = {} /\ since = << >> /\ gone = << >>
          /\ leavers = {} /\ downs = {} /\ stop = NoStop /\ pass = << >>
 
 CStep == /\ l <= Len(Trace)
@@ -194,6 +208,7 @@ CStep == /\ l <= Len(Trace)
          /\ TStep
          /\ CUpdate(Norm(Trace[l]))
          /\ PassUpdate(Norm(Trace[l]))
+         /\ HeardUpdate(Norm(Trace[l]))
 
 CDone == TDone /\ UNCHANGED cvars
 
